@@ -1,5 +1,6 @@
 //! Engine S scenarios: real glue methods of `sqlite/src/lib.rs` on symbolic database states,
 //! compared with the storage contract through the abstraction function of sdb.rs.
+use crate::real_sqlite::verif_access::concrete;
 use crate::real_sqlite::SqliteStorage;
 use crate::sdb::*;
 use rusqlite::{mon, Val, NR};
@@ -54,17 +55,16 @@ fn first_match(s: &AState, owner: u128, key: u128, by_parent: bool) -> usize {
 
 /// C13/C09/C18: the four read methods answer exactly what the contract view of THIS client says,
 /// whatever rows other clients own (including rows with the same ids), and change nothing.
-pub fn s_reads(p: &mut Pool) {
+pub fn s_reads<const WHICH: u8>(p: &mut Pool) {
     let s = any_state(p, MAXV);
     install(&s);
     let pre = *rusqlite::db();
     let st = open();
-    let which = p.u8();
-    assume(which < 4);
+    let which = WHICH;
     let key = p.u128();
     {
         let mut t = match st.txn(u(s.cid)) {
-            Ok(t) => t,
+            Ok(t) => concrete(t),
             Err(e) => {
                 std::mem::forget(e);
                 chk!(false, "s: txn() on an idle database succeeds");
@@ -122,22 +122,28 @@ pub fn s_reads(p: &mut Pool) {
     chk!(*rusqlite::db() == pre, "s18: reads (and the dropped transaction around them) leave the database identical");
     chk!(mon().begins == 1 && mon().commits == 0, "s18: a read-only transaction begins once and never commits");
     usage_ok();
-    cov!(which == 0 && s.c.exists && s.c.snap.is_some(), "s13.cov: client with snapshot");
-    cov!(which == 0 && s.c.exists && s.c.snap.is_none(), "s13.cov: client without snapshot");
-    cov!(which == 1 && matches!(s.c.snap, Some((v, _, _, _)) if v == key), "s11.cov: snapshot data fetched");
+    if WHICH == 0 {
+        cov!(s.c.exists && s.c.snap.is_some(), "s13.cov: client with snapshot");
+        cov!(s.c.exists && s.c.snap.is_none(), "s13.cov: client without snapshot");
+    }
+    if WHICH == 1 {
+        cov!(matches!(s.c.snap, Some((v, _, _, _)) if v == key), "s11.cov: snapshot data fetched");
+    }
+    if WHICH >= 2 {
+        cov!(first_match(&s, s.cid, key, WHICH == 2) != NR, "s13.cov: version found");
+    }
     std::mem::forget(st);
 }
 
 /// C13/C02/C07/C12: add_version stores exactly (id, client, parent, blob), moves latest, bumps the
 /// counter (NULL + 1 = NULL without a snapshot), touches no other row; new_client and set_snapshot
 /// likewise; commit persists, drop rolls back.
-pub fn s_writes(p: &mut Pool) {
+pub fn s_writes<const WHICH: u8>(p: &mut Pool) {
     let s = any_state(p, MAXV - 1);
     install(&s);
     let pre = *rusqlite::db();
     let st = open();
-    let which = p.u8();
-    assume(which < 3);
+    let which = WHICH;
     let a = p.u128();
     let b = p.u128();
     let data = bytes_from_pool(p);
@@ -169,7 +175,7 @@ pub fn s_writes(p: &mut Pool) {
     let mut ok = true;
     {
         let mut t = match st.txn(u(s.cid)) {
-            Ok(t) => t,
+            Ok(t) => concrete(t),
             Err(e) => {
                 std::mem::forget(e);
                 chk!(false, "s: txn() on an idle database succeeds");
@@ -225,10 +231,16 @@ pub fn s_writes(p: &mut Pool) {
     }
     chk!(mon().begins == 1, "s03: one BEGIN per transaction");
     usage_ok();
-    cov!(which == 2 && do_commit && s.c.snap.is_some(), "s12.cov: add_version with a snapshot (counter bumped)");
-    cov!(which == 2 && do_commit && s.c.snap.is_none(), "s12.cov: add_version without a snapshot (NULL counter)");
-    cov!(which == 1 && do_commit && s.c.snap.is_some(), "s11.cov: snapshot replaced");
-    cov!(which == 0 && do_commit, "s13.cov: client created");
+    if WHICH == 2 {
+        cov!(do_commit && s.c.snap.is_some(), "s12.cov: add_version with a snapshot (counter bumped)");
+        cov!(do_commit && s.c.snap.is_none(), "s12.cov: add_version without a snapshot (NULL counter)");
+    }
+    if WHICH == 1 {
+        cov!(do_commit && s.c.snap.is_some(), "s11.cov: snapshot replaced");
+    }
+    if WHICH == 0 {
+        cov!(do_commit, "s13.cov: client created");
+    }
     cov!(!do_commit, "s04.cov: rolled back");
     std::mem::forget(st);
 }
@@ -243,7 +255,7 @@ pub fn s_exclusive(p: &mut Pool) {
     chk!(!mon().unsafe_pragma, "s04: no pragma that weakens atomic commit or durability (synchronous=OFF, journal_mode=OFF/MEMORY, ...)");
     chk!(mon().begins == 0, "s03: opening the storage starts no transaction");
     let calls0 = mon().calls;
-    let t1 = st.txn(u(s.cid));
+    let t1 = st.txn(u(s.cid)).map(concrete);
     chk!(t1.is_ok(), "s03: txn() on an idle database succeeds");
     chk!(mon().begins == 1 && !mon().begin_deferred, "s03: txn() begins an IMMEDIATE or EXCLUSIVE transaction (a deferred one lets two requests read the same latest)");
     chk!(mon().calls == calls0 + 2, "s03: txn() = open a fresh connection + BEGIN, nothing else");
@@ -255,7 +267,7 @@ pub fn s_exclusive(p: &mut Pool) {
     chk!(mon().busy, "s03: the second BEGIN was refused by the write lock");
     std::mem::forget(t2);
     drop(t1);
-    let t3 = st2.txn(u(other));
+    let t3 = st2.txn(u(other)).map(concrete);
     chk!(t3.is_ok(), "s03: once the first transaction is dropped the lock is free again");
     usage_ok();
     std::mem::forget(t3);
@@ -295,7 +307,8 @@ pub fn s_faults(p: &mut Pool) {
             std::mem::forget(e);
             failed = true;
         }
-        Ok(mut t) => {
+        Ok(t) => {
+            let mut t = concrete(t);
             match t.add_version(u(a), u(b), data.to_vec()) {
                 Err(e) => {
                     std::mem::forget(e);
@@ -335,7 +348,7 @@ pub fn s_blob(p: &mut Pool) {
     let b = p.u128();
     let data = bytes_from_pool(p);
     let sdata = bytes_from_pool(p);
-    let mut t = st.txn(u(s.cid)).unwrap();
+    let mut t = concrete(st.txn(u(s.cid)).unwrap());
     chk!(t.add_version(u(a), u(b), data.to_vec()).is_ok(), "s06: add_version");
     chk!(t.set_snapshot(Snapshot { version_id: u(a), timestamp: chrono::DateTime::from_timestamp(TS[1], 0).unwrap(), versions_since: 0 }, sdata.to_vec()).is_ok(), "s06: set_snapshot");
     let db = *rusqlite::db();
@@ -379,7 +392,7 @@ pub fn s_reopen(p: &mut Pool) {
     }
     let st = open();
     {
-        let mut t = st.txn(u(s.cid)).unwrap();
+        let mut t = concrete(st.txn(u(s.cid)).unwrap());
         chk!(t.add_version(u(a), u(b), data.to_vec()).is_ok(), "s13: add_version");
         chk!(t.commit().is_ok(), "s13: commit");
     }
@@ -392,7 +405,7 @@ pub fn s_reopen(p: &mut Pool) {
         st
     };
     chk!(*rusqlite::db() == before, "s13: reopening (journal pragma and CREATE ... IF NOT EXISTS re-run) does not change the database");
-    let mut t = st2.txn(u(s.cid)).unwrap();
+    let mut t = concrete(st2.txn(u(s.cid)).unwrap());
     match t.get_client() {
         Ok(Some(c)) => {
             chk!(c.latest_version_id.as_u128() == a, "s13: after a reopen the latest pointer is the committed one");
@@ -418,13 +431,13 @@ pub fn s_codec_enc(p: &mut Pool) {
     let old = p.bool();
     if old {
         let st = crate::old_sqlite::SqliteStorage::new("d").unwrap();
-        let mut t = st.txn(u(s.cid)).unwrap();
+        let mut t = crate::old_sqlite::verif_access::concrete(st.txn(u(s.cid)).unwrap());
         chk!(t.new_client(u(x)).is_ok(), "s19: new_client (pinned glue)");
         std::mem::forget(t);
         std::mem::forget(st);
     } else {
         let st = open();
-        let mut t = st.txn(u(s.cid)).unwrap();
+        let mut t = concrete(st.txn(u(s.cid)).unwrap());
         chk!(t.new_client(u(x)).is_ok(), "s19: new_client (current glue)");
         std::mem::forget(t);
         std::mem::forget(st);
@@ -444,7 +457,7 @@ pub fn s_codec_dec(p: &mut Pool) {
     s.c = AClient { exists: true, latest: p.u128(), snap: None };
     install(&s);
     let st = open();
-    let mut t = st.txn(u(s.cid)).unwrap();
+    let mut t = concrete(st.txn(u(s.cid)).unwrap());
     match t.get_client() {
         Ok(Some(c)) => {
             chk!(c.latest_version_id.as_u128() == s.c.latest, "s19: the current glue reads back every canonical id text as the same id");
@@ -475,7 +488,7 @@ pub fn s_upgrade(p: &mut Pool) {
     assume(v1 != v2);
     {
         let old = crate::old_sqlite::SqliteStorage::new("d").unwrap();
-        let mut t = old.txn(u(s.cid)).unwrap();
+        let mut t = crate::old_sqlite::verif_access::concrete(old.txn(u(s.cid)).unwrap());
         t.new_client(Uuid::nil()).unwrap();
         t.add_version(u(v1), u(p1), d1.to_vec()).unwrap();
         if with_snap {
@@ -485,14 +498,14 @@ pub fn s_upgrade(p: &mut Pool) {
         drop(t);
         if leftover {
             // crash leftover at transaction level: a write that was never committed
-            let mut t = old.txn(u(s.cid)).unwrap();
+            let mut t = crate::old_sqlite::verif_access::concrete(old.txn(u(s.cid)).unwrap());
             t.add_version(u(v2), u(v1), d2.to_vec()).unwrap();
             drop(t);
         }
         std::mem::forget(old);
     }
     let st = open();
-    let mut t = st.txn(u(s.cid)).unwrap();
+    let mut t = concrete(st.txn(u(s.cid)).unwrap());
     match t.get_client() {
         Ok(Some(c)) => {
             chk!(c.latest_version_id.as_u128() == v1, "s19: the latest pointer written by the pinned release is served");
